@@ -121,15 +121,29 @@ Record tickflags := mkTF {
   f_scan : bool;            (* the host/service full scan of the delta update is due *)
   f_fault : option nat }.   (* the rebuild started by this cycle fails at its k-th query *)
 
-Definition more_objects (c : cfg) (v : N) (b : backend) : bool :=
-  Nat.ltb (c_cnt c v (c_hosts c)) (c_cnt c (b_ver b) (c_hosts c)) ||
-  Nat.ltb (c_cnt c v (c_svcs c)) (c_cnt c (b_ver b) (c_svcs c)).
+(** a complete rebuild against an answering backend (the last line of [rebuild]) *)
+Definition published_now (b : backend) : peer := mkP (Some (b_ver b)) (b_ident b) Up false true.
+
+(** datastoreset.go:548 getMissingTimestamps, the full scan of ONE table (hosts, then services) of
+    the cached version [v]: the backend has more objects than the cache -
+      nothing cached at all: reloadIfNumberOfObjectsChanged rebuilds at once (InitAllTables
+      inside the update, not through a "restart required" error; the update goes on);
+      otherwise setBroken and the update ends.
+    result: peer, the update ends here *)
+Definition scan_table (c : cfg) (t : nat) (v : N) (b : backend) (p : peer) : peer * bool :=
+  if Nat.ltb (c_cnt c v t) (c_cnt c (b_ver b) t) then
+    if Nat.eqb (c_cnt c v t) 0 then (published_now b, false) else (set_broken p, true)
+  else (p, false).
 
 (** datastoreset.go:256 UpdateDelta on cached version [v]; result: peer, restart required *)
 Definition delta (c : cfg) (f : tickflags) (b : backend) (p : peer) (v : N) : peer * bool :=
   if negb (b_ok b) then (fail_query p, false) else
   if restarted p b then (p, true) else
-  if f_scan f && more_objects c v b then (set_broken p, false)
+  if f_scan f then
+    let r1 := scan_table c (c_hosts c) v b p in
+    if snd r1 then (fst r1, false) else
+    let r2 := scan_table c (c_svcs c) v b (fst r1) in
+    if snd r2 then (fst r2, false) else (reset_errors (fst r2), false)
   else (reset_errors p, false).
 
 (** datastoreset.go:209 UpdateFull(Objects.UpdateTables) *)
